@@ -124,8 +124,49 @@ func (v *Validator) typeOfValue(val types.Value) (cedarType, error) {
 	case types.String:
 		return typeString{}, nil
 	case types.EntityUID:
+		return v.typeOfEntityUID(val)
+	case types.Decimal:
+		return typeExtension{"decimal"}, nil
+	case types.IPAddr:
+		return typeExtension{"ipaddr"}, nil
+	case types.Datetime:
+		return typeExtension{"datetime"}, nil
+	case types.Duration:
+		return typeExtension{"duration"}, nil
+	case types.Record:
+		// a literal record value (programmatic AST or JSON "Value") is typed like a record expression
+		attrs := make(map[types.String]attributeType, val.Len())
+		for k, elem := range val.All() {
+			et, err := v.typeOfValue(elem)
+			if err != nil {
+				return nil, err
+			}
+			attrs[k] = attributeType{typ: et, required: true}
+		}
+		return typeRecord{attrs: attrs}, nil
+	case types.Set:
+		// a literal set value is typed like a set expression
+		if v.strict && val.Len() == 0 {
+			return nil, fmt.Errorf("empty set literals are forbidden in policies")
+		}
+		var elemType cedarType = typeNever{}
+		for elem := range val.All() {
+			et, err := v.typeOfValue(elem)
+			if err != nil {
+				return nil, err
+			}
+			if err := v.checkStrictEntityLUB(elemType, et); err != nil {
+				return nil, typeIncompatErr(elemType, et)
+			}
+			lub, err := v.leastUpperBound(elemType, et)
+			if err != nil {
+				return nil, typeIncompatErr(elemType, et)
+			}
+			elemType = lub
+		}
+		return typeSet{element: elemType}, nil
 	}
-	return v.typeOfEntityUID(val.(types.EntityUID))
+	return nil, fmt.Errorf("unsupported literal value of type %T", val)
 }
 
 func (v *Validator) typeOfEntityUID(uid types.EntityUID) (cedarType, error) {
